@@ -74,6 +74,31 @@ namespace sim
                 for (auto &c : m.value.GetArray())
                   if (c.IsInt())
                     w.max_comp = std::max(w.max_comp, c.GetInt());
+              if ((k == "max depth" || k == "min depth") && m.value.IsNumber())
+                {
+                  const double d = m.value.GetDouble();
+                  if (std::isfinite(d) && d >= 0 && d < 3e6 && w.depth_values.size() < 64)
+                    w.depth_values.push_back(d);
+                }
+              if ((k == "max depth" || k == "min depth") && m.value.IsArray())
+                for (auto &e : m.value.GetArray())
+                  if (e.IsArray() && e.Size() >= 1 && e[0].IsNumber())
+                    {
+                      const double d = e[0].GetDouble();
+                      if (std::isfinite(d) && d >= 0 && d < 3e6 && w.depth_values.size() < 64)
+                        w.depth_values.push_back(d);
+                      if (e.Size() >= 2 && e[1].IsArray())
+                        for (auto &pnt : e[1].GetArray())
+                          if (pnt.IsArray() && pnt.Size() == 2 && pnt[0].IsNumber() && pnt[1].IsNumber())
+                            {
+                              const double x = pnt[0].GetDouble(), y = pnt[1].GetDouble();
+                              if (std::isfinite(x) && std::isfinite(y) && std::fabs(x) < 1e9 && std::fabs(y) < 1e9)
+                                {
+                                  w.surface_points.push_back({{x, y}});
+                                  w.coords.push_back({{x, y}});
+                                }
+                            }
+                    }
               if (k == "max depth" && m.value.IsNumber())
                 {
                   const double d = m.value.GetDouble();
@@ -322,16 +347,48 @@ namespace sim
         x = std::max(-359.0, std::min(359.0, x));
         y = std::max(-89.5, std::min(89.5, y));
       }
+    bool on_edge = false;
+    if (w.edge_world && rng.chance(0.5))
+      {
+        // exactly on the triangle edge of the depth surface, or a little to either side of it
+        const double along = w.edge_lo + (w.edge_hi - w.edge_lo) * rng.real(0.02, 0.98);
+        const double side = rng.chance(0.6) ? 0.0 : (w.edge_hi - w.edge_lo) * rng.real(-0.3, 0.3);
+        x = w.edge_vertical ? w.edge_c + side : along;
+        y = w.edge_vertical ? along : w.edge_c + side;
+        on_edge = true;
+      }
+    else if (rng.chance(0.12) && w.coords.size() >= 2)
+      {
+        // exactly between two points named in the file (shared triangle edges, polygon edges)
+        const auto &a = w.coords[rng.below(w.coords.size())];
+        const auto &b = w.coords[rng.below(w.coords.size())];
+        x = 0.5 * (a[0] + b[0]);
+        y = 0.5 * (a[1] + b[1]);
+      }
     double depth;
     const double ds = rng.real();
     if (ds < 0.15)
       depth = 0.0;
+    else if (ds < 0.3 && !w.depth_values.empty())
+      {
+        // a depth the file names, exactly or one step next to it
+        depth = w.depth_values[rng.below(w.depth_values.size())];
+        const double sel2 = rng.real();
+        if (sel2 < 0.25)
+          depth = std::nextafter(depth, 0.0);
+        else if (sel2 < 0.5)
+          depth = std::nextafter(depth, 1e300);
+        else if (sel2 < 0.6)
+          depth *= 0.5;
+      }
     else if (ds < 0.2)
       depth = 1e-3;
     else if (ds < 0.6)
       depth = rng.real(0, 200e3);
     else
       depth = rng.real(0, w.max_depth * 1.2);
+    if (on_edge && rng.chance(0.7))
+      depth = w.edge_depth * rng.real(0.05, 0.95); // inside the plate: the linear model feels the local surface depth
     if (w.spherical)
       depth = std::min(depth, 0.95 * w.radius);
     pp.depth = depth;
